@@ -71,6 +71,24 @@ def _segment(src: str, qual: str | None):
     return offs[start_line - 1], offs[c.end_lineno]
 
 
+def _reindent(text: str, shift: int):
+    out = []
+    for i, l in enumerate(text.split("\n")):
+        if not l.strip():
+            out.append(l)
+        elif shift > 0:
+            # a fragment that starts in the middle of a line keeps its first line as it is
+            out.append((" " * shift + l) if (i > 0 or l.startswith(" ")) else l)
+        else:
+            if l.startswith(" " * -shift):
+                out.append(l[-shift:])
+            elif i == 0 and not l.startswith(" "):
+                out.append(l)
+            else:
+                return None
+    return "\n".join(out)
+
+
 def apply_edit(root: str, module: str, qual: str | None, old: str, new: str) -> bool:
     p = os.path.join(root, "src", "anyio", module)
     with open(p, encoding="utf-8") as fh:
@@ -81,7 +99,14 @@ def apply_edit(root: str, module: str, qual: str | None, old: str, new: str) -> 
     a, b = seg
     body = src[a:b]
     if body.count(old) != 1:
-        return False
+        # the construct may have moved one block level in or out since the mutant was written (e.g. wrapped in a loop)
+        for shift in (4, -4, 8, -8):
+            o2, n2 = _reindent(old, shift), _reindent(new, shift)
+            if o2 is not None and n2 is not None and body.count(o2) == 1:
+                old, new = o2, n2
+                break
+        else:
+            return False
     body = body.replace(old, new)
     out = src[:a] + body + src[b:]
     try:
